@@ -36,13 +36,11 @@ ASSUMPTIONS = [
     'pixel values are opaque: decoding a stored frame to numbers (pydicom / C01, C05) is not part of this model',
     'numpy slice assignment with equal source and destination shapes copies element-wise (shapes are proved equal)',
     'SQLite returns exactly the FrameLUT rows matching the WHERE clause (the clause is pinned textually in T5)',
-    'BINARY segmentations are generated with tiles of >= 8 pixels (frame packing of tiny frames is C01)',
 ]
 MODELLED_NOT_VERIFIED = ['SQLite query execution', 'numpy zeros / slice assignment / pad / any', 'pydicom dataset access and pixel decoding',
                          'Segmentation constructor outside the tiling loop (pixel casting, segment extraction: C01, C02)',
                          'ORDER BY of the region query (the model sorts with mergeSort; result proved order-independent)']
 
-BINARY_MIN_TILE_PIXELS = 8
 
 
 # ------------------------------------------------------------------------------------------ oracle side
@@ -341,6 +339,12 @@ def _check_slide(ctx, cfg, requests, reqs, pending, exhaustive=False):
                 int(f.PlanePositionSlideSequence[0].ColumnPositionInTotalImagePixelMatrix), k, 0]
                for k, f in enumerate(ds.PerFrameFunctionalGroupsSequence)]
     impls = []
+    # a third of the images are read with the decoded frames already cached (`pixel_array` accessed before the region reads)
+    cached = None
+    if cfg['idx'] % 3 == 2 and not exhaustive and entry != 'imread-lazy':
+        stc, pa = _fetch(lambda: im.pixel_array)
+        if stc == 'ok':
+            cached = np.array(pa, copy=True)
     snapshot = (bytes(ds.PixelData), int(ds.NumberOfFrames))
     spelling = cfg.get('int_spelling', 'int')
     first_ok = None
@@ -372,6 +376,7 @@ def _check_slide(ctx, cfg, requests, reqs, pending, exhaustive=False):
                  argument_types='integers' if modelable(req) else 'non-integer:' + '/'.join(type(v).__name__ for v in req[:4] if v is not None and not modelable((v,))),
                  outcome='ok' if st == 'ok' else val.split(':')[0], convention='0-based' if ai else '1-based',
                  matrix=f'{min(R, 8)}x{min(C, 8)}' if not exhaustive else 'exhaustive', tile=f'{th}x{tw}', entry=entry,
+                 pixel_array_cached=cached is not None,
                  remainder=(min(R % th, 2), min(C % tw, 2)),
                  divides=(R % th == 0, C % tw == 0))
         # ---- oracle
@@ -408,6 +413,10 @@ def _check_slide(ctx, cfg, requests, reqs, pending, exhaustive=False):
                       'second': val if st == 'err' else 'different array'}, site='Image.get_total_pixel_matrix')
     if (bytes(ds.PixelData), int(ds.NumberOfFrames)) != snapshot:
         ctx.fail({'slide': cfg}, {'what': 'reading regions modified the image'}, site='Image.get_total_pixel_matrix')
+    if cached is not None:
+        stc, pa = _fetch(lambda: im.pixel_array)
+        if stc != 'ok' or not np.array_equal(np.asarray(pa), cached):
+            ctx.fail({'slide': cfg}, {'what': 'reading regions modified the cached pixel_array of the image'}, site='Image.get_total_pixel_matrix')
     # ---- model (L0)
     reqs.append(('readRegions', {
         'frames': [_px(f) for f in frames], 'rows': R, 'cols': C, 'th': th, 'tw': tw, 'full': cfg['full'],
@@ -443,12 +452,20 @@ def _check_duplicates(ctx, idx, reqs, pending):
     from gen.sources import slide_image
     r = ctx.rng('dup', idx)
     R, C, th, tw = r.randint(1, 6), r.randint(1, 6), r.randint(1, 4), r.randint(1, 4)
-    full = idx % 2 == 0
+    full = idx % 3 != 1
+    planes = 2 if idx % 3 == 2 else 1
     ds, tpm = slide_image(R, C, th, tw, tiled_full=full, rng=ctx.np_rng('duppix', idx))
     n = int(ds.NumberOfFrames)
     fb = th * tw
     raw = bytes(ds.PixelData)[:n * fb]
-    if full:
+    if planes == 2:
+        # a TILED_FULL image with two focal planes: every tile position occurs once per plane
+        ds.TotalPixelMatrixFocalPlanes = 2
+        data = raw + raw
+        ds.NumberOfFrames = 2 * n
+        lut, channels = [], [1]
+        k = None
+    elif full:
         ds.NumberOfOpticalPaths = 2
         op = Dataset()
         op.OpticalPathIdentifier = '2'
@@ -468,7 +485,7 @@ def _check_duplicates(ctx, idx, reqs, pending):
                 int(f.PlanePositionSlideSequence[0].ColumnPositionInTotalImagePixelMatrix), i, 0] for i, f in enumerate(pf)]
         channels = [1]
     ds.PixelData = data + (b'\x00' if len(data) % 2 else b'')
-    cfg = dict(idx=idx, R=R, C=C, th=th, tw=tw, full=full, duplicate='optical-path' if full else k)
+    cfg = dict(idx=idx, R=R, C=C, th=th, tw=tw, full=full, duplicate='focal-plane' if planes == 2 else 'optical-path' if full else k)
     st, im = _fetch(hd.Image.from_dataset, ds, copy=False)
     if st == 'err':
         ctx.note(f'image with repeated positions could not be opened: {im}')
@@ -480,6 +497,7 @@ def _check_duplicates(ctx, idx, reqs, pending):
         st, val = _fetch(im.get_total_pixel_matrix, row_start=rs, row_end=re, column_start=cs, column_end=ce, as_indices=ai)
         orc = oracle_region(R, C, req)
         ctx.case(kind='duplicates', organisation='TILED_FULL' if full else 'TILED_SPARSE', request_class='duplicate-positions',
+                 duplicate_kind=str(cfg['duplicate']) if full else 'repeated-position',
                  outcome='ok' if st == 'ok' else val.split(':')[0])
         if st == 'ok':
             # both frames hold the same pixels here, so an answer, if any, must still be the matrix
@@ -489,7 +507,7 @@ def _check_duplicates(ctx, idx, reqs, pending):
         impls.append(('ok', {'shape': list(np.asarray(val).shape[:2]), 'data': _px(val)}) if st == 'ok' else ('err', val))
     frames = np.frombuffer(data, dtype=np.uint8).reshape((-1, th, tw))
     reqs.append(('readRegions', {'frames': [_px(f) for f in frames], 'rows': R, 'cols': C, 'th': th, 'tw': tw, 'full': full,
-                                 'allow_missing': False, 'chan': None, 'channels': channels, 'lut': lut,
+                                 'allow_missing': False, 'chan': None, 'channels': channels, 'planes': planes, 'lut': lut,
                                  'requests': [list(q) for q in requests]}))
     pending.append(('multi', [{'duplicates': cfg, 'request': list(q)} for q in requests], impls, 'L0', 'Image.get_total_pixel_matrix (repeated positions)'))
 
@@ -508,12 +526,8 @@ def _seg_config(ctx, idx):
     else:
         th, tw = r.randint(1, 6), r.randint(1, 6)
         tile = (th, tw)
-    if typ == 'BINARY' and th * tw < BINARY_MIN_TILE_PIXELS:
-        # C01: frames of fewer than 8 pixels are not packed correctly on this tree -> use bigger tiles
-        th, tw = max(th, 2), max(tw, 4)
-        tile = (th, tw)
     rem = r.choice(['any', 'any', 'one', 'minus-one', 'divides'])
-    if rem != 'any' and not (typ == 'BINARY' and th * tw < BINARY_MIN_TILE_PIXELS):
+    if rem != 'any':
         kr, kc = r.randint(0 if rem == 'one' else 1, 3), r.randint(0 if rem == 'one' else 1, 3)
         R = max(1, min(kr * th + {'one': 1, 'minus-one': th - 1, 'divides': 0}[rem], 14))
         C = max(1, min(kc * tw + {'one': 1, 'minus-one': tw - 1, 'divides': 0}[rem], 14))
